@@ -136,11 +136,72 @@ def ignore_prefix_sibling(chk, sseed):
         w.destroy()
 
 
+def ignore_other_repository(chk, sseed):
+    """`ignore_errors <URL A> <dir>` excuses files of repository A only: repository B, mirrored after it in the same run, lists a
+    package in the same relative directory, and that file cannot be obtained - the run must not exit 0 with it missing"""
+    rng = random.Random(sseed)
+    w = common.World(rng, 2, select_all=True, settings={"nthreads": "1"})
+    try:
+        a, b = w.repos
+        ua, ub = a["url"], b["url"]
+
+        def selected(repo):
+            url = repo["url"]
+            return [(cn, comp, arch) for cn, cs in sorted(repo["codenames"].items()) for comp, cp in sorted(cs["components"].items())
+                    for arch in sorted(cp.get("binaries", {}))
+                    if arch != "all" and arch in w.cfgs[url]["codenames"].get(cn, {}).get(comp, {}).get("arches", [])]
+        pairs = [(x, y) for x in selected(a) for y in selected(b) if x[1].split("/")[0] == y[1].split("/")[0] and x[2] == y[2]]
+        if not pairs:
+            chk.evaluated(None)
+            chk.count("ignore-other-repository:skipped")
+            return
+        (cna, compa, arch), (cnb, compb, _) = rng.choice(pairs)
+        idx = 200 + rng.randint(0, 50)
+        pa, pb = upstream.gen_pkg(rng, compa, arch, idx), upstream.gen_pkg(rng, compb, arch, idx)
+        assert pa["filename"] == pb["filename"]
+        a["codenames"][cna]["components"][compa]["binaries"][arch].append(pa)
+        b["codenames"][cnb]["components"][compb]["binaries"][arch].append(pb)
+        entry = pa["filename"].rsplit("/", 1)[0]
+        w.lines = [ln for ln in w.lines if not ln.startswith(("ignore_errors ", "include_", "exclude_"))] + [f"ignore_errors {ua} {entry}"]
+        for u in (ua, ub):
+            w.cfgs[u]["filters"] = {}
+            w.cfgs[u]["ignore_errors"] = [entry] if u == ua else []
+        w.sb.write_config(w.lines, w.settings)
+        stores = w.stores()
+        if any(common.has_s3(r, w.cfgs[r["url"]], stores[r["url"]]) for r in w.repos):
+            chk.evaluated(None)
+            chk.count("ignore-other-repository:skipped")
+            return
+        fault = rng.choice(scenario.FAULTS)
+        plans = {ub: [[pb["filename"], "*", fault]]}
+        if rng.random() < 0.5:
+            plans[ua] = [[pa["filename"], "*", rng.choice(scenario.FAULTS)]]   # A's own copy fails too: that one is excused
+        res = run_e2e.execute(w.sb, w.repos, stores, plans, vloop.RandomChooser(rng.randrange(1 << 30)))
+        replay = {"scenario_seed": sseed, "class": "ignore-other-repository", "ignore_errors": [ua, entry], "failing": [ub, pb["filename"]],
+                  "fault": fault, "lines": w.lines}
+        if res.exit == 0:
+            q = os.path.join(runner.mirror_dir(w.sb, ub), pb["filename"])
+            probs = w.fsck(ub)
+            if probs or not os.path.isfile(q) or os.path.getsize(q) != pb["size"]:
+                chk.violation("exit0-fsck-dirty:ignore-errors-other-repository", replay,
+                              f"exit 0 although {pb['filename']} of {ub} could not be obtained (ignore_errors names {ua} only): {(probs or ['file missing'])[0]}")
+        common.correspondence(chk, res, replay, publish=False)
+        chk.evaluated(("ignore-other-repository", fault, ua in plans), sample={"class": "ignore-other-repository", "entry": entry, "exit": res.exit})
+        chk.count("class:ignore-other-repository")
+        chk.count(f"exit:{res.exit}")
+        chk.traces += 1
+    finally:
+        run_e2e.flush_l2(chk, {"scenario_seed": sseed, "class": "ignore-other-repository"})
+        w.destroy()
+
+
 def run_one(chk, sseed, cls):
     if cls == "after-crash":
         return after_crash(chk, sseed)
     if cls == "ignore-prefix-sibling":
         return ignore_prefix_sibling(chk, sseed)
+    if cls == "ignore-other-repository":
+        return ignore_other_repository(chk, sseed)
     rng = random.Random(sseed)
     seed = rng.randrange(1 << 30)
     nrepos = 1 if rng.random() < 0.7 else 2
@@ -421,6 +482,9 @@ def unpack_correspondence(chk, rng, n):
 
 
 def run(chk, tier, rng):
+    for i in range(4 if tier == "quick" else 60):
+        # first in the run: what the tool keeps for the life of a process must not have been filled by earlier scenarios
+        ignore_other_repository(chk, f"C01o-{chk.seed}-{i}")
     unpack_correspondence(chk, random.Random(f"unpack-{chk.seed}"), 64 if tier == "quick" else 400)
     for i in range(40 if tier == "quick" else 800):
         flat_one(chk, f"C01F-{chk.seed}-{i}")
